@@ -1,7 +1,7 @@
 (* C19 glue: object graphs on the wire (same as go/cmd/c19/graph.go).
    obj   := n | T | F | i<hex> | r<hexbytes> | /<hexbytes> | s<hexbytes> | R<hexnr>
           | [ obj* ] | < (k<hexbytes> obj)* > | S < ... > =<hexbytes>
-   graph := (#<hexnr> (v|i|l) obj)*        v = entry valid, i = not valid, l = lazy object stream member
+   graph := (#<hexnr> (v|i|l) obj)*        v = entry valid, i = not valid, l = undecoded object stream member (decoded by the writer, never validated: as i)
    tokens are separated by single spaces.
    "write" graph root info delv maxdepth  ->  ok:<table>|dangling=<list>  |  fail  |  fuel
    where <table> is nr:obj; for every surviving number in ascending order (most recent record). *)
@@ -52,7 +52,7 @@ let graph_of_string s =
     | [] -> List.rev acc
     | t :: fl :: r when String.length t > 0 && t.[0] = '#' ->
       let (o, r') = parse_obj r in
-      let f = (match fl with "v" -> FValid | "i" -> FInvalid | "l" -> FLazy | _ -> failwith "flag") in
+      let f = (match fl with "v" -> FValid | "i" | "l" -> FInvalid | _ -> failwith "flag") in
       go r' ((n_of_hex (rest t), (f, o)) :: acc)
     | _ -> failwith "graph" in
   go (toks s) []
